@@ -18,16 +18,22 @@ Proof. unfold eff, in_range. intros. destruct (v =? disable) eqn:E; lia. Qed.
 Lemma eff_idem disable maxv v : eff disable maxv (eff disable maxv v) = eff disable maxv v.
 Proof. unfold eff. destruct (v =? disable) eqn:E; [destruct (maxv =? disable) eqn:F|rewrite E]; reflexivity. Qed.
 
+Lemma decimal_type_ok_iff w s :
+  decimal_type_ok w s = true <-> 1 <= w <= duckdb_max_width /\ 0 <= s <= w.
+Proof. unfold decimal_type_ok. rewrite !andb_true_iff, !Z.leb_le. lia. Qed.
+
 Lemma spec_accept_iff k ew es g : wf_consts k ->
   accepted (set_decimal_config_spec k ew es g) = true <->
   in_range (c_min_w k) (c_max_w k) (c_disable k) (from_env ew (c_def_w k)) /\
-  in_range (c_min_s k) (c_max_s k) (c_disable k) (from_env es (c_def_s k)).
+  in_range (c_min_s k) (c_max_s k) (c_disable k) (from_env es (c_def_s k)) /\
+  eff (c_disable k) (c_max_s k) (from_env es (c_def_s k)) <= eff (c_disable k) (c_max_w k) (from_env ew (c_def_w k)).
 Proof.
   intros (Hw & Hs & Hsw). rewrite <- (eff_range _ _ _ _ Hw), <- (eff_range _ _ _ _ Hs).
   unfold set_decimal_config_spec.
   set (w1 := eff _ _ (from_env ew _)). set (s1 := eff _ _ (from_env es _)).
   destruct ((s1 <? c_min_s k) || (s1 >? c_max_s k)) eqn:E1; [simpl; split; [discriminate | lia]|].
-  destruct ((w1 <? c_min_w k) || (w1 >? c_max_w k)) eqn:E2; simpl; split; try discriminate; try reflexivity; lia.
+  destruct ((w1 <? c_min_w k) || (w1 >? c_max_w k)) eqn:E2; [simpl; split; [discriminate | lia]|].
+  destruct (w1 <? s1) eqn:E3; simpl; split; try discriminate; try reflexivity; lia.
 Qed.
 
 (* an accepted call publishes the effective configuration, a rejected one leaves the globals alone *)
@@ -37,7 +43,8 @@ Lemma spec_state k ew es g :
   then mkG (eff (c_disable k) (c_max_w k) (from_env ew (c_def_w k))) (eff (c_disable k) (c_max_s k) (from_env es (c_def_s k)))
   else g.
 Proof.
-  unfold set_decimal_config_spec. destruct (_ || _); [reflexivity|]. destruct (_ || _); reflexivity.
+  unfold set_decimal_config_spec. destruct (_ || _); [reflexivity|]. destruct (_ || _); [reflexivity|].
+  destruct (_ <? _); reflexivity.
 Qed.
 
 (* the verdict (accepted with which configuration / rejected for which variable with which value) ignores the globals *)
@@ -47,7 +54,20 @@ Definition verdict (r : cfg_result) : option globals * option (cfgvar * Z) :=
 Lemma spec_history_independent k ew es g1 g2 :
   verdict (set_decimal_config_spec k ew es g1) = verdict (set_decimal_config_spec k ew es g2).
 Proof.
-  unfold set_decimal_config_spec. destruct (_ || _); [reflexivity|]. destruct (_ || _); reflexivity.
+  unfold set_decimal_config_spec. destruct (_ || _); [reflexivity|]. destruct (_ || _); [reflexivity|].
+  destruct (_ <? _); reflexivity.
+Qed.
+
+(* an accepted configuration is always a well-formed DuckDB DECIMAL type: nothing raw can come out of it *)
+Lemma spec_accepted_type_ok k ew es g g' : wf_consts k -> 1 <= c_min_w k -> c_max_w k <= duckdb_max_width -> 0 <= c_min_s k ->
+  set_decimal_config_spec k ew es g = Accepted g' -> decimal_type_ok (g_w g') (g_s g') = true.
+Proof.
+  intros (Hw & Hs & Hsw) H1 H38 H0. unfold set_decimal_config_spec.
+  set (w1 := eff _ _ (from_env ew _)). set (s1 := eff _ _ (from_env es _)).
+  destruct ((s1 <? c_min_s k) || (s1 >? c_max_s k)) eqn:E1; [discriminate|].
+  destruct ((w1 <? c_min_w k) || (w1 >? c_max_w k)) eqn:E2; [discriminate|].
+  destruct (w1 <? s1) eqn:E3; [discriminate|]. intros H. injection H as <-. simpl.
+  apply decimal_type_ok_iff. lia.
 Qed.
 
 (* the spec: an unset variable is its documented default *)
@@ -111,9 +131,6 @@ Proof.
   - split; [discriminate | intros (? & ? & _); discriminate].
 Qed.
 
-Lemma decimal_type_ok_iff w s :
-  decimal_type_ok w s = true <-> 1 <= w <= duckdb_max_width /\ 0 <= s <= w.
-Proof. unfold decimal_type_ok. rewrite !andb_true_iff, !Z.leb_le. lia. Qed.
 
 (* ------------------------------------------------------------------ rounding on load *)
 Lemma pow10_pos n : 0 <= n -> 0 < 10 ^ n.
